@@ -96,6 +96,40 @@ def case_many_links():
     return {'meta': {'pages': pages}, 'opts': o, 'starts': [('h1', '/')], 'start_spellings': [es.canon('h1', '/')]}
 
 
+def case_frame_diamond():
+    """a diamond with unequal arms whose long arm passes through an embedded document: /a embeds /f (a page requisite that is
+    itself a document) which links /x; /b links /x; /x links /y; -l 2 -p, one worker, several start URLs.  Rows are visited in
+    table order, so /x is first found from /b at level 1 and /y (level 2) is fetched"""
+    P = lambda kind, **kw: dict({'kind': kind, 'links': [], 'target': None, 'delay': 0.0, 'code': 200}, **kw)
+    L = lambda p, inline=False: ('h1', p, inline, p)
+    pages = {('h1', '/a'): P('doc', links=[L('/d/f.html', True)]),
+             ('h1', '/p/q?y=2'): P('leaf'), ('h1', '/t'): P('leaf'), ('h1', '/u/v'): P('leaf'),
+             ('h1', '/b'): P('doc', links=[L('/k/x.html')]),
+             ('h1', '/d/f.html'): P('doc', links=[L('/k/x.html')]),
+             ('h1', '/k/x.html'): P('doc', links=[L('/k/l')]),
+             ('h1', '/k/l'): P('leaf')}
+    o = {'recursive': True, 'preq': True, 'level': 2, 'prl': None, 'no_parent': False, 'tries': 1, 'acc': None, 'rej': None,
+         'span': False, 'span_preq': False, 'span_linked': False, 'maxredir': None, 'conc': 1}
+    starts = [('h1', '/a'), ('h1', '/p/q?y=2'), ('h1', '/t'), ('h1', '/u/v'), ('h1', '/b')]
+    return {'meta': {'pages': pages}, 'opts': o, 'starts': starts, 'start_spellings': [es.canon(*k) for k in starts]}
+
+
+def case_linked_and_embedded():
+    """URLs that one page both links (<a href>) and embeds (<img src>): without -p only the link context is in scope, whatever
+    the order in which the scraper hands out the two contexts (six such URLs: the order is a set iteration order)"""
+    P = lambda kind, **kw: dict({'kind': kind, 'links': [], 'target': None, 'delay': 0.0, 'code': 200}, **kw)
+    targets = ['/img/1.png', '/d/i.png', '/c.html', '/k/l', '/t', '/u/v']
+    links = []
+    for t in targets:
+        links += [('h1', t, True, t), ('h1', t, False, t)]
+    pages = {('h1', '/'): P('doc', links=links)}
+    for t in targets:
+        pages[('h1', t)] = P('img' if t.endswith('.png') else 'leaf')
+    o = {'recursive': True, 'preq': False, 'level': None, 'prl': None, 'no_parent': False, 'tries': 1, 'acc': None, 'rej': None,
+         'span': False, 'span_preq': False, 'span_linked': False, 'maxredir': None, 'conc': 1}
+    return {'meta': {'pages': pages}, 'opts': o, 'starts': [('h1', '/')], 'start_spellings': [es.canon('h1', '/')]}
+
+
 def case_root_first():
     """two start URLs, --no-parent, two workers: /d/ (slow) and /k/x.html both link to /d/e2; the fast page discovers it first, the row
     keeps root /k/x.html and --no-parent refuses it, although it lies under the directory of the start URL /d/ that links to it"""
@@ -187,7 +221,7 @@ def classify(v):
 
 # --------------------------------------------------------------------------
 def gen_cases(r, n, thorough=False):
-    cases = [('f28', case_f28()), ('f29', case_f29()), ('root-first', case_root_first()), ('many-links', case_many_links())]
+    cases = [('f28', case_f28()), ('f29', case_f29()), ('root-first', case_root_first()), ('many-links', case_many_links()), ('frame-diamond', case_frame_diamond()), ('linked-and-embedded', case_linked_and_embedded())]
     for i in range(n):
         kind = i % 6
         if kind == 0:
